@@ -69,9 +69,11 @@ def build_replay(profile="dev"):
     return os.path.join(REPLAY_TARGET, sub, "verif-replay"), time.time() - t
 
 
-def kani_base_cmd():
-    return ["cargo", "kani", "-Z", "stubbing", "-Z", "unstable-options", "-Z", "concrete-playback",
-            "--concrete-playback=print", "--target-dir", KANI_TARGET]
+def kani_base_cmd(playback=False):
+    cmd = ["cargo", "kani", "-Z", "stubbing", "-Z", "unstable-options"]
+    if playback:
+        cmd += ["-Z", "concrete-playback", "--concrete-playback=print"]
+    return cmd + ["--target-dir", KANI_TARGET]
 
 
 def kani_prebuild():
@@ -79,7 +81,7 @@ def kani_prebuild():
     parallel per-harness runs find the dependency tree fresh."""
     t = time.time()
     cmd = ["cargo", "kani", "-Z", "stubbing", "-Z", "unstable-options", "--target-dir", KANI_TARGET,
-           "--only-codegen", "--harness", "zz_build_probe"]
+           "--only-codegen", "--exact", "--harness", "harnesses::zz_build_probe"]
     p = subprocess.run(cmd, cwd=KANI_DIR, env=ENV, stdout=subprocess.PIPE, stderr=subprocess.STDOUT, text=True)
     ok = p.returncode == 0
     if not ok:
@@ -256,8 +258,7 @@ def run_harness(h, replay_bins, tier_caps):
     resolved = []
     if uw:
         # codegen first so that the goto binary exists and loop ids can be read from it
-        cmd = ["cargo", "kani", "-Z", "stubbing", "-Z", "unstable-options", "-Z", "concrete-playback",
-               "--concrete-playback=print", "--target-dir", KANI_TARGET, "--only-codegen", "--harness", name]
+        cmd = kani_base_cmd() + ["--only-codegen", "--exact", "--harness", "harnesses::" + name]
         rc, to, dt = run_cmd(cmd, KANI_DIR, cap, None, os.path.join(LOGS, name + ".codegen.log"))
         if rc != 0 or to:
             out = open(os.path.join(LOGS, name + ".codegen.log")).read()
@@ -268,17 +269,25 @@ def run_harness(h, replay_bins, tier_caps):
         res["loops_in_binary"] = len(loops)
         if missing:
             res["notes"].append("unwindset patterns without a matching loop: %s" % missing)
-    cmd = kani_base_cmd() + ["--harness", name]
-    if h.get("solver"):
-        cmd += ["--solver", h["solver"]]
-    cbmc_args = list(h.get("cbmc_args", []))
-    if resolved:
-        cbmc_args += ["--unwindset", ",".join(resolved)]
-    if cbmc_args:
-        cmd += ["--cbmc-args"] + cbmc_args
+    def mk(playback):
+        cmd = kani_base_cmd(playback) + ["--exact", "--harness", "harnesses::" + name]
+        if h.get("solver"):
+            cmd += ["--solver", h["solver"]]
+        cbmc_args = list(h.get("cbmc_args", []))
+        if resolved:
+            cbmc_args += ["--unwindset", ",".join(resolved)]
+        if cbmc_args:
+            cmd += ["--cbmc-args"] + cbmc_args
+        return cmd
+    cmd = mk(False)
     logfile = os.path.join(LOGS, name + ".log")
     rc, timed_out, dt = run_cmd(cmd, KANI_DIR, cap, mem, logfile)
     out = open(logfile, errors="replace").read()
+    if not timed_out and parse_kani(out)["failed"]:
+        # a counterexample exists: run again with concrete playback to obtain the concrete draws
+        logfile = os.path.join(LOGS, name + ".playback.log")
+        rc, timed_out, dt = run_cmd(mk(True), KANI_DIR, cap, mem, logfile)
+        out = open(logfile, errors="replace").read()
     res["wall_s"] = round(time.time() - t0, 1)
     res["cmd"] = " ".join(cmd)
     if timed_out:
@@ -384,7 +393,7 @@ def decide(prop, tier, harnesses, meta, seed=0, jobs=None, only=None):
     caps = dict(TIERS[tier])
     if jobs:
         caps["jobs"] = jobs
-    hs = [h for h in harnesses if h["prop"] == prop and (tier == "thorough" or h.get("tier", "quick") == "quick")]
+    hs = [h for h in harnesses if prop in h["props"] and (tier == "thorough" or h.get("tier", "quick") == "quick")]
     if only:
         hs = [h for h in hs if re.search(only, h["name"])]
     # the seed only permutes scheduling order: verdicts are solver verdicts
